@@ -34,6 +34,7 @@ int __real_pthread_cond_broadcast(pthread_cond_t *);
 int __real_pthread_attr_setaffinity_np(pthread_attr_t *, size_t, const cpu_set_t *);
 int __real_pthread_attr_init(pthread_attr_t *);
 int __real_pthread_attr_setstacksize(pthread_attr_t *, size_t);
+int __real_pthread_attr_getstacksize(const pthread_attr_t *, size_t *);
 int __real_pthread_setname_np(pthread_t, const char *);
 int __real_clock_gettime(clockid_t, struct timespec *);
 int __real_nanosleep(const struct timespec *, struct timespec *);
@@ -591,10 +592,10 @@ static void *slot_entry(void *a) {
     return nullptr;
 }
 
-static void start_os_thread(Slot *s) {
+static void start_os_thread(Slot *s, size_t stack_size) {
     pthread_attr_t at; // the attribute calls are interposed too (fault injection): use the real ones
     __real_pthread_attr_init(&at);
-    __real_pthread_attr_setstacksize(&at, 1 << 20);
+    __real_pthread_attr_setstacksize(&at, stack_size);
     int rc = 0;
     for (int attempt = 0; attempt < 200; attempt++) { // earlier threads may still be on their way out
         rc = __real_pthread_create(&s->os_handle, &at, slot_entry, s);
@@ -910,7 +911,7 @@ int cond_signal(pthread_cond_t *c, bool all) {
     return 0;
 }
 
-int thread_create(pthread_t *out, void *(*fn)(void *), void *arg) {
+int thread_create(pthread_t *out, void *(*fn)(void *), void *arg, size_t stack_size) {
     point(PK_THREAD_CREATE, nullptr, 0);
     if (tl_self->create_fail_n > 0 && --tl_self->create_fail_n == 0) {
         fault_fired("pthread_create_fail");
@@ -931,7 +932,7 @@ int thread_create(pthread_t *out, void *(*fn)(void *), void *arg) {
     s->in_use = true;
     s->bound = t.id;
     s->go.store(0);
-    start_os_thread(s);
+    start_os_thread(s, stack_size);
     *out = s->os_handle;
     log_event(PK_THREAD_CREATE, nullptr, t.id);
     return 0;
@@ -1086,7 +1087,11 @@ int __wrap_pthread_once(pthread_once_t *flag, void (*fn)(void)) {
 }
 int __wrap_pthread_create(pthread_t *t, const pthread_attr_t *a, void *(*fn)(void *), void *arg) {
     if (!sim::active()) return __real_pthread_create(t, a, fn, arg);
-    return sim::thread_create(t, fn, arg);
+    // The stack the code under test asks for is honoured between 64 KiB and 1 MiB (application callbacks run on library threads with
+    // whatever stack the library gave the thread); anything smaller gets 1 MiB, because harness and simulator frames run there too.
+    size_t want = 0, stack = 1 << 20;
+    if (a && __real_pthread_attr_getstacksize(a, &want) == 0 && want >= 65536 && want < stack) stack = (want + 4095) & ~(size_t)4095;
+    return sim::thread_create(t, fn, arg, stack);
 }
 int __wrap_pthread_join(pthread_t t, void **ret) {
     if (!sim::active()) return __real_pthread_join(t, ret);
